@@ -751,7 +751,9 @@ def load(I, arr, idx, node, env):
     if point:
         if len(point) == 2 and all(const_int(p) == 0 for p in point.values()):
             if I.ctx != "mean":
-                val = Unknown("mean-mode entry read at a generic mode")
+                # the value at the mean mode, seen from the analysis of a generic mode: a number in its own right (the mean
+                # context evaluates it), here a symbol so that a test on it is a proper two-way branch and not a guess
+                val = alg.fn("meanmode", val) if isinstance(val, Expr) else Unknown("mean-mode entry read at a generic mode")
         else:
             val = Unknown("point read at fixed grid index")
         meta.pop("spec", None)
